@@ -13,7 +13,7 @@ import ast
 
 from sa.cfg import cfg_of
 from sa.fold import Evaluator, Obj, Raised, Unfoldable
-from sa.guards import decide_with, find_calls
+from sa.guards import decide_with, find_calls, kind_name
 from sa.loader import AnalysisError, call_name, calls_in, kwarg, walk_local
 
 PROPERTY = "C18"
@@ -106,8 +106,8 @@ def r1(repo, res):
                key="forward:" + call_name(x) + ":" + (ast.unparse(x.args[0]) if x.args else ""))
     cg = cfg_of(g)
     reapply = [x for x in find_calls(g, "update") if x.args and isinstance(x.args[0], ast.Name)
-               and x.args[0].id == pk and ast.unparse(x.func).startswith("profile.")]
-    removed = cg.prune(decide_with({"kind": "dump", "cn_solution": None}))
+               and x.args[0].id == pk and isinstance(x.func, ast.Attribute)]
+    removed = cg.prune(decide_with({kind_name(g): "dump", "cn_solution": None}))
     stage = find_calls(g, "estimate_cn")
     ok = bool(reapply) and bool(stage) and all(
         cg.is_reachable(cg.node_of(r), removed) for r in reapply) and any(
